@@ -9,6 +9,7 @@ CONSTANTS
   Emit = TRUE
   AliasMods = {"e", "a", "b"}
   NsAlias = FALSE
+  StarMode = "any"
   ModRefs = TRUE
 INVARIANT Agree
 INVARIANT Closed
